@@ -822,6 +822,60 @@ def l25(ctx, rid):
         raise core.AnchorLost('places that clear the deferred index-dump event: %d' % n)
 
 
+def l26(ctx, rid):
+    """a clean shutdown completes the index dumps that were requested: `Storage::close` dumps, besides the active blob, every closed
+    blob whose index is in memory (a delete in a closed blob reloads its index and only registers a deferred dump with the
+    worker; the worker stops without running it).  Otherwise the index file of that blob stays stale after a clean close: the
+    offline tools reject it and report fewer headers than the blob holds (finding F17)"""
+    prog = ctx.prog
+    memo = {}
+
+    def is_blob_dump(g, c):
+        return c.name == 'dump' and any(t.startswith('blob::core::Blob') and t.endswith('::dump') for t in prog.resolve(c))
+
+    def dumps_all(fid, depth=3):
+        """the family of `fid` calls Blob::dump inside a loop (over the closed blobs), directly or through a callee"""
+        if fid in memo:
+            return memo[fid]
+        memo[fid] = False
+        if fid not in prog.fns or depth < 0:
+            return False
+        for gid in prog.family(fid):
+            g = prog.fns.get(gid)
+            if g is None:
+                continue
+            for c in g.calls:
+                if c.bb not in g.reachable() or c.name == 'poll':
+                    continue
+                if is_blob_dump(g, c) and core.loop_depth(g, c.bb) >= 1:
+                    memo[fid] = True
+                    return True
+                if any(t in prog.fns and t != fid and not t.startswith('blob::') and dumps_all(t, depth - 1) for t in prog.resolve(c)):
+                    memo[fid] = True
+                    return True
+        return False
+    f = prog.body_of('storage::core::Storage::<K>::close')
+    if f is None:
+        raise core.AnchorLost('Storage::close')
+    ev = []
+    for c in f.calls:
+        if c.bb not in f.reachable() or c.name == 'poll':
+            continue
+        if is_blob_dump(f, c) and core.loop_depth(f, c.bb) >= 1:
+            # the loop itself is the event (it may run zero times: no closed blobs)
+            ev.extend(core.loop_headers_of(f, c.bb))
+        elif any(t in prog.fns and dumps_all(t) for t in prog.resolve(c)):
+            ev.append(c.bb)
+    rets = [i for i in f.reachable() if f.blocks[i]['t']['k'] == 'return']
+    reach = f.reach_from([0], avoid_exit=ev)
+    loose = [r for r in rets if r in reach]
+    key = 'close-dumps-closed-blobs|storage::core::Storage::<K>::close'
+    if loose:
+        ctx.bad(rid, key, f.where(), 'close() returns without dumping the closed blobs whose index is in memory: an index dump requested by a delete in a closed blob is dropped at shutdown and the index file of that blob stays stale')
+    else:
+        ctx.ok(rid, key, f.where(), 'every return of close() is preceded by a dump of the closed blobs (%d site(s))' % len(ev))
+
+
 RULES = [
     Rule('C13.L1', 'the worker loop is only left through the Stop arm (recv() == None) and contains no reachable panic written in the worker module', l1, 4),
     Rule('C13.L3', 'one channel, Sender never cloned, stored only in the Running state, dropped before the worker handle is awaited', l3, 4),
@@ -845,6 +899,7 @@ RULES = [
     Rule('C13.L23', 'the worker performs no panicking subtraction of times', l23, 1),
     Rule('C13.L24', 'the worker never unwraps the active-blob slot', l24, 1),
     Rule('C13.L25', 'no deadline is armed for a deferred dump whose event was taken out', l25, 1),
+    Rule('C13.L26', 'a clean close completes the index dumps of the closed blobs', l26, 1),
     Rule('C13.L15', 'the blob id counter is never given back: a creation failure bound to one file name cannot repeat for ever (C07.H6 instances)', l15, 3),
     Rule('C13.L8', 'request-pending / in-progress flags are released on every path of their handler (C12.S8 instances)', l8, 1),
 ]
